@@ -14,22 +14,24 @@ namespace MdIt.C07
 
 /-- **C07.frame** — under the rule contracts the whole loop (any number of blocks, containers
 included) returns with the frame fields of its entry state -/
-theorem frame (rules : List BRule) (hok : ∀ r ∈ rules, RuleOK r) (hlast : ∃ r ∈ rules, AlwaysMatches r)
+theorem frame (P : BState → Nat → Prop) (hP : FrameClosed P) (rules : List BRule) (hok : ∀ r ∈ rules, RuleOK P r)
+    (hlast : ∃ r ∈ rules, AlwaysMatches P r)
     (maxNesting : Int) (s : BState) (startLine endLine : Nat) (hlen : s.lines.length = s.lineMax + 1)
-    (hend : endLine ≤ s.lineMax) :
+    (hend : endLine ≤ s.lineMax) (hPs : P s endLine) :
     ∃ s', blockTokenize rules maxNesting s startLine endLine = .ok s' ∧ s'.lines = s.lines ∧ s'.lineMax = s.lineMax
       ∧ s'.blkIndent = s.blkIndent ∧ s'.level = s.level := by
-  obtain ⟨s', h, hf⟩ := C01.block_tokenize_total rules hok hlast maxNesting s startLine endLine hlen hend
+  obtain ⟨s', h, hf⟩ := C01.block_tokenize_total P hP rules hok hlast maxNesting s startLine endLine hlen hend hPs
   exact ⟨s', h, hf.1, hf.2.1, hf.2.2.1, hf.2.2.2⟩
 
 /-- **C07.stages** — the blocks of a document are emitted in stages with increasing, disjoint line
 ranges (C03.loop_maps_staged): the tokens of a later block never reach back into the lines of an
 earlier one -/
-theorem stages (rules : List BRule) (hok : ∀ r ∈ rules, RuleOK r) (hmap : ∀ r ∈ rules, C03.MapOK r)
+theorem stages (P : BState → Nat → Prop) (hP : FrameClosed P) (rules : List BRule) (hok : ∀ r ∈ rules, RuleOK P r)
+    (hmap : ∀ r ∈ rules, C03.MapOK P r)
     (maxNesting : Int) (s s' : BState) (startLine endLine : Nat) (hlen : s.lines.length = s.lineMax + 1)
-    (hend : endLine ≤ s.lineMax) (h : blockTokenize rules maxNesting s startLine endLine = .ok s') :
+    (hend : endLine ≤ s.lineMax) (hPs : P s endLine) (h : blockTokenize rules maxNesting s startLine endLine = .ok s') :
     ∃ new, s'.tokens = s.tokens ++ new ∧ C03.Staged startLine endLine new :=
-  C03.loop_maps_staged rules hok hmap maxNesting endLine _ startLine false s s' hlen hend h
+  C03.loop_maps_staged P hP rules hok hmap maxNesting endLine _ startLine false s s' hlen hend hPs h
 
 /-- **C07.pins_cover** (T1 obligation over tables regenerated from the rule sources) — every block rule
 that runs a terminator chain assigns `state.parentType` a literal of its own while it does so: no
